@@ -1214,6 +1214,37 @@ def _grid_facts(mod, fn, wrappers):
         if isinstance(x, ast.Compare) and len(x.ops) == 1 and isinstance(x.ops[0], (ast.In, ast.NotIn)) \
                 and isinstance(x.comparators[0], ast.Name) and x.comparators[0].id.isupper():
             facts[("validated-against", x.comparators[0].id)] = True
+    # parameters: effective default (after an `if p is None: p = X` sentinel) and the meaning of None
+    args = fn.args.args
+    dflt = dict(zip([a.arg for a in args[len(args) - len(fn.args.defaults):]], fn.args.defaults))
+    remap = {}
+    for st in fn.body:
+        if isinstance(st, ast.If) and not st.orelse and len(st.body) == 1 and isinstance(st.test, ast.Compare) \
+                and isinstance(st.test.left, ast.Name) and len(st.test.ops) == 1 and isinstance(st.test.ops[0], ast.Is) \
+                and isinstance(st.test.comparators[0], ast.Constant) and st.test.comparators[0].value is None \
+                and isinstance(st.body[0], ast.Assign) and isinstance(st.body[0].targets[0], ast.Name) \
+                and st.body[0].targets[0].id == st.test.left.id:
+            remap[st.test.left.id] = st.body[0].value
+    for p_, d in dflt.items():
+        eff = remap.get(p_, d) if (isinstance(d, ast.Constant) and d.value is None) else d
+        txt = pf.src(eff).replace("numpy.", "np.")
+        if txt in ("dict()", "{}"):
+            txt = "{}"
+        facts[("effective-default", p_)] = txt
+    for p_ in params:
+        tested = False
+        for x in pf.walk_no_nested(fn):
+            if isinstance(x, ast.Call) and pf.call_name(x) == "callable" and x.args and isinstance(x.args[0], ast.Name) \
+                    and x.args[0].id == p_:
+                tested = True
+            if isinstance(x, ast.Compare) and isinstance(x.left, ast.Name) and x.left.id == p_ and len(x.ops) == 1 \
+                    and isinstance(x.ops[0], (ast.Is, ast.IsNot)) and isinstance(x.comparators[0], ast.Constant) \
+                    and x.comparators[0].value is None and p_ not in remap:
+                tested = True
+        if tested and p_ not in remap:
+            facts[("None-is-a-value", p_)] = True  # e.g. prune=None means "no pruning"
+        elif p_ in remap:
+            facts[("None-remapped", p_)] = pf.src(remap[p_])
     if ("atom_grid-per-atom", "falls back to the 'default' entry") not in facts:
         facts[("atom_grid-per-atom", "falls back to the 'default' entry")] = False
     return facts
@@ -1247,6 +1278,15 @@ def rule_pyscf_mirror(chk, mod):
         okf = got == want
         if key == ("charge-of-atom",) and got is not None:
             okf = set(want) <= set(got)
+        if key[0] == "None-is-a-value":
+            okf = got is True
+            if not okf and ("None-remapped", key[1]) in cf_:
+                chk.violation("pyscf-mirror", GG, "gen_atomic_grids_cider", "None for %s" % key[1], cfn.lineno,
+                              "in pyscf's gen_atomic_grids `%s=None` is a value of its own (the function tests it: no "
+                              "%s is applied), and CiderGrids.gen_atomic_grids forwards self.%s unchanged; the fork maps "
+                              "None to `%s`, so a Grids object configured with %s=None gets a different grid"
+                              % (key[1], key[1], key[1], cf_[("None-remapped", key[1])], key[1]), instance=inst)
+                continue
         if key[0] == "param-call" and got is not None:
             okf = got[0] == want[0] and got[1] == want[1]
         if okf:
@@ -1481,6 +1521,16 @@ def _revert_fac_list(text):
     return text.replace(a, tab).replace("FAC_LIST(m)", "FAC_LIST[m]")
 
 
+
+def _seed_none_prune(text):
+    a = "    prune=nwchem_prune,\n    full_lmax"
+    b = "    if atom_grid is None:\n        atom_grid = {}\n"
+    if a not in text or b not in text:
+        return None
+    text = text.replace(a, "    prune=None,\n    full_lmax", 1)
+    return text.replace(b, "    if prune is None:\n        prune = nwchem_prune\n" + b, 1)
+
+
 def mutants(tree):
     return [
         Mutant("remove set_idx after sort", GG, "            self.grids_indexer.set_idx(idx)\n", "", expect="reindex"),
@@ -1538,6 +1588,9 @@ def mutants(tree):
         Mutant("per-atom fill skips the last atom", GI, "        for a in range(self.natm):\n            tmp[self.ga_loc[a]",
                "        for a in range(self.natm - 1):\n            tmp[self.ga_loc[a]", expect="owner-map"),
         Mutant("module-level element cache without prune in the key", GG, fn=_seed_cache(False), expect="memo-key"),
+        Mutant("prune=None resolved to nwchem_prune inside the fork", GG, fn=_seed_none_prune, expect="pyscf-mirror"),
+        Mutant("fork default level differs from pyscf", GG, "    level=3,\n    prune=nwchem_prune,\n    full_lmax", "    level=4,\n    prune=nwchem_prune,\n    full_lmax",
+               expect="pyscf-mirror"),
         Mutant("charge of the atom from gto.charge (ghost atoms get 0)", GG, "            chg = _grid_charge(symb)\n",
                "            chg = gto.charge(symb)\n", expect="pyscf-mirror"),
         Mutant("atom_grid['default'] ignored", GG, "            atom_config = atom_grid.get(symb, default)\n",
